@@ -901,7 +901,7 @@ func checkIgnore(out *simkit.Outcome, sc *pw.Scenario, i int, r *result, t *tree
 			if ex && present {
 				out.Violate("C03", "excluded-shipped", "deref:"+ruleClass(rules, p.arch), fmt.Sprintf("run %d: %s (copied from %s) is excluded by the rules %q at its archive path but appears in the slug", i, p.arch, p.abs, rulesSrc(rules)))
 			}
-			if !ex && !present && !p.belowExcludedLink(rules) {
+			if !ex && !present {
 				out.Violate("C03", "included-missing", "deref:"+ruleClass(rules, p.arch), fmt.Sprintf("run %d: %s (copied from %s) is not excluded by the rules %q at its archive path but is missing", i, p.arch, p.abs, rulesSrc(rules)))
 			}
 			out.Probe("deref-dir-path-judged")
